@@ -191,6 +191,10 @@ func (w *World) watchStop() {
 }
 
 func (w *World) gate(kind, id string) {
+	if kind == "evict" {
+		// the eviction callback has left the timer queue
+		w.note("evictPop", "name", id)
+	}
 	if !w.gated.Load() {
 		return
 	}
@@ -225,6 +229,9 @@ func (w *World) note(kind string, kv ...interface{}) {
 		r["rid"] = w.symText(rid)
 	}
 	if n, ok := r["name"].(string); ok {
+		if v, ok := r["n"]; ok {
+			r["num"] = v
+		}
 		r["n"] = w.symText(n)
 		delete(r, "name")
 		if q, ok := r["query"].(string); ok {
